@@ -402,6 +402,7 @@ func refMember(ms []cty.Value, x cty.Value) int {
 func runC02(c *Ctx) {
 	// history clause first, so that each worker process meets it in its initial state
 	histFamily(c, "operation methods and hashing after accepted and rejected calls", c02HistoryOps)
+	c02Derived(c)
 	nums := numAlphabet(true) // the pairs are cheap: the full alphabet in both tiers
 	vals := mkNums(nums)
 	binOps := []string{"Add", "Subtract", "Multiply", "Divide", "Modulo"}
@@ -1079,3 +1080,79 @@ var capsPanicHashType = cty.CapsuleWithOps("panichash", reflect.TypeOf(capsNativ
 	RawEquals: func(a, b interface{}) bool { return a.(*capsNative).N == b.(*capsNative).N },
 	HashKey:   func(v interface{}) string { panic("HashKey callback failed") },
 })
+
+// c02Derived: operands that are themselves results of operations (two-step expressions).  The
+// statement's integer clause does not depend on how an integer operand was obtained: when both
+// operands are whole numbers and the exact result is a whole number that fits 64 bits, the
+// result is exact; otherwise it agrees with exact rational arithmetic to within the precision
+// of the leaves the operands were computed from (at least 53 bits).
+func c02Derived(c *Ctx) {
+	leaves := []int64{0, 1, -1, 3, 4, 6, 7, 10, 37, 100, 1000, 65536, 1 << 31, -5, 255, 12345}
+	type dv struct {
+		v    cty.Value
+		desc string
+	}
+	var ds []dv
+	seen := map[string]bool{}
+	add := func(v cty.Value, desc string) {
+		f := bf(v)
+		k := fmt.Sprintf("%s/%d", f.Text('g', 40), f.Prec())
+		if f.IsInf() || seen[k] {
+			return
+		}
+		seen[k] = true
+		ds = append(ds, dv{v, desc})
+	}
+	for _, a := range leaves {
+		for _, b := range leaves {
+			x, y := cty.NumberIntVal(a), cty.NumberIntVal(b)
+			for _, on := range []string{"Multiply", "Add", "Subtract", "Divide", "Modulo"} {
+				if r, p, _ := callOp(opByName(on), []cty.Value{x, y}); !p {
+					add(r, fmt.Sprintf("%s(%d, %d)", on, a, b))
+				}
+			}
+		}
+		x := cty.NumberIntVal(a)
+		add(x.Negate(), fmt.Sprintf("Negate(%d)", a))
+		add(x.Absolute(), fmt.Sprintf("Absolute(%d)", a))
+		add(cty.NumberFloatVal(float64(a)).Multiply(cty.NumberFloatVal(0.5)), fmt.Sprintf("Multiply(%d.0, 0.5)", a))
+	}
+	c.Note("derived_operands", fmt.Sprint(len(ds)))
+	for i := range ds {
+		i := i
+		c.Unit(func(u *U) {
+			a := ds[i]
+			for _, b := range ds {
+				for _, on := range []string{"Add", "Subtract", "Multiply", "Divide", "Modulo"} {
+					u.Eval(1)
+					u.DistinctN(1)
+					ex := refNumBinary(on, a.v, b.v)
+					if ex.unspecified || ex.inf != 0 || ex.exact == nil {
+						continue
+					}
+					r, pan, msg := callOp(opByName(on), []cty.Value{a.v, b.v})
+					desc := fmt.Sprintf("%s(%s = %s, %s = %s)", on, a.desc, goStr(a.v), b.desc, goStr(b.v))
+					if pan {
+						u.Violation(on+".rejects", "derived operands", desc+" panicked: "+msg)
+						continue
+					}
+					ra, rb := ratOf(a.v), ratOf(b.v)
+					if ra.IsInt() && rb.IsInt() && ex.exact.IsInt() && ex.exact.Num().IsInt64() {
+						u.Class("derived-integer-exact")
+						if ratOf(r).Cmp(ex.exact) != 0 {
+							u.Violation(on+".integer-inexact", "derived operands", fmt.Sprintf("%s = %s; both operands are whole numbers and the exact result %s fits 64 bits", desc, goStr(r), ex.exact.RatString()))
+						}
+						continue
+					}
+					u.Class("derived-within-precision")
+					// every leaf came from a constructor giving at least 53 bits
+					p := maxPrec(a.v, b.v)
+					if p < 53 {
+						p = 53
+					}
+					checkNumResult(u, on, desc, "derived operands", r, ex, p)
+				}
+			}
+		})
+	}
+}
